@@ -2122,6 +2122,8 @@ type pyval =
 | VObj of bytes * pyval list
 | VIDict of handle
 | VRef of handle
+| VOList of pyval list
+| VOMap of bool * (atom * pyval) list
 
 type cell =
 | PyDict of (atom * pyval) list
@@ -2765,6 +2767,50 @@ let rec freeze f s v =
            | PyList l ->
              option_map (fun x -> VTuple x) (seq_opt (map (freeze f' s) l)))
         | None -> None)
+     | VOList l ->
+       option_map (fun x -> VTuple x) (seq_opt (map (freeze f' s) l))
+     | VOMap (_, it) ->
+       option_map (fun x -> VTuple x)
+         (seq_opt
+           (map (fun kv ->
+             option_map (fun x -> VTuple ((VAtom (fst kv)) :: (x :: [])))
+               (freeze f' s (snd kv))) it))
+     | x -> Some x)
+
+(** val deepcopy : nat -> store -> pyval -> pyval option **)
+
+let rec deepcopy f s v =
+  match f with
+  | O -> None
+  | S f' ->
+    let items = fun it ->
+      seq_opt
+        (map (fun kv ->
+          option_map (fun x -> ((fst kv), x)) (deepcopy f' s (snd kv))) it)
+    in
+    (match v with
+     | VTuple l ->
+       option_map (fun x -> VTuple x) (seq_opt (map (deepcopy f' s) l))
+     | VObj (c, l) ->
+       option_map (fun x -> VObj (c, x)) (seq_opt (map (deepcopy f' s) l))
+     | VIDict h ->
+       (match lookup s h with
+        | Some c ->
+          (match c with
+           | PyDict it -> option_map (fun x -> VOMap (false, x)) (items it)
+           | PyList _ -> None)
+        | None -> None)
+     | VRef h ->
+       (match lookup s h with
+        | Some c ->
+          (match c with
+           | PyDict it -> option_map (fun x -> VOMap (true, x)) (items it)
+           | PyList l ->
+             option_map (fun x -> VOList x) (seq_opt (map (deepcopy f' s) l)))
+        | None -> None)
+     | VOList l ->
+       option_map (fun x -> VOList x) (seq_opt (map (deepcopy f' s) l))
+     | VOMap (m, it) -> option_map (fun x -> VOMap (m, x)) (items it)
      | x -> Some x)
 
 (** val as_pair : store -> pyval -> (pyval * pyval) option **)
@@ -2794,6 +2840,15 @@ let as_pair s = function
                           | [] -> Some (k, x)
                           | _ :: _ -> None))))
    | None -> None)
+| VOList l ->
+  (match l with
+   | [] -> None
+   | k :: l0 ->
+     (match l0 with
+      | [] -> None
+      | x :: l1 -> (match l1 with
+                    | [] -> Some (k, x)
+                    | _ :: _ -> None)))
 | _ -> None
 
 (** val as_kv : store -> pyval -> (atom * pyval) option **)
@@ -2856,6 +2911,7 @@ let tuplify s v =
             | _ :: _ -> Err EValueError)
          | PyList l -> go l)
       | None -> Err ETypeError)
+   | VOList l -> go l
    | _ -> Err ETypeError)
 
 (** val is_atom : pyval -> bool **)
@@ -3025,7 +3081,10 @@ let rec resolve f s v =
              RMap (true,
                (map (fun kv -> ((fst kv), (resolve f' s (snd kv)))) it))
            | PyList l -> RSeq (true, (map (resolve f' s) l)))
-        | None -> RBad))
+        | None -> RBad)
+     | VOList l -> RSeq (true, (map (resolve f' s) l))
+     | VOMap (m, it) ->
+       RMap (m, (map (fun kv -> ((fst kv), (resolve f' s (snd kv)))) it)))
 
 (** val flags_of :
     class_table -> (field_row -> bool) -> bytes -> bool list **)
@@ -3271,32 +3330,25 @@ let post_revision f cls rows vals s =
                           | PyDict it ->
                             (match assoc xH_KEY it with
                              | Some xh ->
-                               (match freeze f s (VIDict hm) with
+                               (match deepcopy f s (VIDict hm) with
                                 | Some p1 ->
                                   (match p1 with
-                                   | VTuple pairs ->
-                                     (match freeze f s xh with
+                                   | VOMap (_, kvs) ->
+                                     (match deepcopy f s xh with
                                       | Some xh' ->
-                                        (match seq_opt (map (as_kv s) pairs) with
-                                         | Some kvs ->
-                                           (match tuplify s xh' with
-                                            | Ok t ->
-                                              if atom_pairs t
-                                              then let (h', s') =
-                                                     alloc s (PyDict
-                                                       (dict_del xH_KEY kvs))
-                                                   in
-                                                   Ok
-                                                   ((set_field k_XH t rows
-                                                      (set_field k_META
-                                                        (VIDict h') rows vals)),
-                                                   s')
-                                              else Err ETypeError
-                                            | Err e -> Err e)
-                                         | None ->
-                                           (match tuplify s xh' with
-                                            | Ok _ -> Err ETypeError
-                                            | Err e -> Err e))
+                                        (match tuplify s xh' with
+                                         | Ok t ->
+                                           if atom_pairs t
+                                           then let (h', s') =
+                                                  alloc s (PyDict
+                                                    (dict_del xH_KEY kvs))
+                                                in
+                                                Ok
+                                                ((set_field k_XH t rows
+                                                   (set_field k_META (VIDict
+                                                     h') rows vals)), s')
+                                           else Err ETypeError
+                                         | Err e -> Err e)
                                       | None -> Err EOutOfFuel)
                                    | _ -> Err EOutOfFuel)
                                 | None -> Err EOutOfFuel)
